@@ -555,7 +555,10 @@ func (v *fnVC) calleeFrameCheck(con *Contract, env *Env, key string, pos token.P
 		case strings.HasPrefix(m, "elems("):
 			ex, _ := parseExpr(m[6 : len(m)-1])
 			t, _ := v.tr(ex, env)
-			v.frameCheck(v.elemAddr(app("sbase", t), "0"), key+": "+m, pos)
+			if alts, ok := v.frameAlts(v.elemAddr(app("sbase", t), "0")); ok {
+				// the elements of a nil slice are no locations at all
+				v.oblige("frame.store", key+": "+m, or(append([]T{eq(app("sbase", t), "0")}, alts...)...), pos)
+			}
 		default:
 			ex, _ := parseExpr(m)
 			a, ty := v.lvalue(ex, env)
@@ -1312,6 +1315,25 @@ func (v *fnVC) dynFn(i int, argSorts []string, resSort string) string {
 // stableCells: the cell of a source variable that the loop body neither stores to, passes to a call,
 // nor binds in a closure created inside the loop keeps the value it had before the loop (callee frames
 // are explicit locations, maps, backing arrays or configuration trees, none of which can be such a cell).
+// blockReaches: there is a control-flow path from a to b.
+func blockReaches(a, b *ssa.BasicBlock) bool {
+	seen := map[*ssa.BasicBlock]bool{}
+	work := []*ssa.BasicBlock{a}
+	for len(work) > 0 {
+		x := work[len(work)-1]
+		work = work[:len(work)-1]
+		if x == b {
+			return true
+		}
+		if seen[x] {
+			continue
+		}
+		seen[x] = true
+		work = append(work, x.Succs...)
+	}
+	return false
+}
+
 func (v *fnVC) stableCells(li *loopInfo, pre map[string]T) {
 	rootOf := func(a ssa.Value) ssa.Value {
 		for {
@@ -1357,6 +1379,9 @@ func (v *fnVC) stableCells(li *loopInfo, pre map[string]T) {
 	for _, ar := range v.allocs {
 		if ar.alloc == nil || touched[ar.alloc] || li.body[ar.blk] || v.localOnly[ar.alloc] {
 			continue
+		}
+		if !blockReaches(ar.blk, li.header) {
+			continue // a variable of another branch (its cell does not exist on any path through this loop)
 		}
 		elem := ar.alloc.Type().Underlying().(*types.Pointer).Elem()
 		for _, lp := range v.leafPaths(elem) {
